@@ -11,6 +11,9 @@ RULES = {"C07.a", "C07.b", "C07.c", "C05.d"}
 def check(ctx):
     ctx.assume("valid configuration: at least one mode, transitions to existing modes, set_mode with an existing mode (property quantifier)")
     kernel.analyze(ctx, RULES | {"C12.d"})
+    # the premise of the unwrap in priority_of: the search over terminal_ids finds every label, whatever their order
+    from .pC01 import priority_rules
+    priority_rules(ctx)
     # cursor coupling (C09.a) and reset totality (C10.b) are also progress conditions: a stale last_position
     # makes advance_to refuse to move
     # (C11.b: the loop of peek_n has the same variant as next_match's — a failed attempt consumes one char of the private cursor
